@@ -14,6 +14,7 @@ CONSTANTS
   PeerFaults = {}
   DeadlineBeforeLock = TRUE
   NoGuard = FALSE
+  GuardPerClient = FALSE
   RearmPerRead = FALSE
   NoCloseOnError = FALSE
 VIEW View
